@@ -10,6 +10,7 @@ from .. import oracles
 from ..model import AnalysisError, doc_default
 from ..constfold import table
 from .common import ob, need, call_name, count_form, role_of, roles, is_lit, lit, resolve_ite_free, linear_form, strip_numeric
+from . import common
 from .. import symeval
 from . import c01, c06
 
@@ -781,6 +782,9 @@ def rule_contfresh(ctx):
 
 
 RULES = [
+    ("C04.FORWARD", 1, common.shared("c05", "rule_subset", "C04.FORWARD", keep=lambda o: "transcription_velocity" in o.construct)),
+    ("C04.BEATTRIM", 1, common.shared("c03", "rule_beattrim", "C04.BEATTRIM")),
+    ("C04.DTYPEFLOW", 3, common.rule_dtypeflow("C04.DTYPEFLOW")),
     ("C04.DOCDEFAULT", 40, rule_docdefault),
     ("C04.PRNORM", 13, rule_prnorm),
     ("C04.KEYTABLE", 8, rule_keytable),
